@@ -106,6 +106,18 @@ MUTANTS = {
     'it_advance_only_when_passed': (V, "        if self.in_it_block():\n            opcode.execute(self)\n            self.registers.it_advance()", "        if self.in_it_block():\n            passed = self.condition_passed()\n            opcode.execute(self)\n            if passed:\n                self.registers.it_advance()", ['C08']),
     'add_imm3_sets_flags_in_it': ('armulator/armv6/opcodes/concrete/add_immediate_thumb_t1.py', "setflags = not processor.in_it_block()", "setflags = True", ['C08']),
     'it_cond_inverted_for_else': (R, "            mask, carry = shift.lsl_c(bits_ops.lower_chunk(itstate, 4), 4, 1)\n            condition_state = chain(carry, mask, 4)", "            mask, carry = shift.lsl_c(bits_ops.lower_chunk(itstate, 4), 4, 1)\n            condition_state = chain(bits_ops.bit_at(itstate, 4), mask, 4)", ['C08']),
+    'ldr_wback_before_access': (OPS + 'ldr_immediate_arm.py', "            data = processor.mem_u_get(address, 4)\n            if self.wback:\n                processor.registers.set(self.n, offset_addr)\n",
+                                "            if self.wback:\n                processor.registers.set(self.n, offset_addr)\n            data = processor.mem_u_get(address, 4)\n", ['C14']),
+    'mpu_lowest_region_wins': (V, "                        if hit:\n                            texcb = chain(", "                        if hit and not region_found:\n                            texcb = chain(", ['C14', 'C19']),
+    'mpu_subregions_ignored': (V, "                            hit = size_enable.get_sd_n(subregion) == 0", "                            hit = True", ['C14']),
+    'mpu_ap6_priv_write_allowed': (V, "        elif perms.ap == 0b110:\n            abort = iswrite", "        elif perms.ap == 0b110:\n            abort = iswrite and not ispriv", ['C14']),
+    'pmsa_dfar_not_written': (V, "            else:\n                self.registers.dfar = vaddress\n            if dtype in (DAbort.ASYNC_EXTERNAL, DAbort.SYNC_EXTERNAL):\n                dfsr_string = set_bit_at(dfsr_string, 12, configurations.dfsr_string_12)\n            else:\n                dfsr_string = set_bit_at(dfsr_string, 12, 0)\n            if dtype in (DAbort.SYNC_WATCHPOINT, DAbort.ASYNC_WATCHPOINT):\n                dfsr_string = set_bit_at(dfsr_string, 11, 0)  # unknown\n            else:\n                dfsr_string = set_bit_at(dfsr_string, 11, iswrite)",
+                              "            else:\n                pass\n            if dtype in (DAbort.ASYNC_EXTERNAL, DAbort.SYNC_EXTERNAL):\n                dfsr_string = set_bit_at(dfsr_string, 12, configurations.dfsr_string_12)\n            else:\n                dfsr_string = set_bit_at(dfsr_string, 12, 0)\n            if dtype in (DAbort.SYNC_WATCHPOINT, DAbort.ASYNC_WATCHPOINT):\n                dfsr_string = set_bit_at(dfsr_string, 11, 0)  # unknown\n            else:\n                dfsr_string = set_bit_at(dfsr_string, 11, iswrite)", ['C14']),
+    'store_lands_before_permission_check': (V, "        memaddrdesc = self.translate_address(va, privileged, True, size, was_aligned)\n        if memaddrdesc.memattrs.shareable:\n            self.clear_exclusive_by_address(memaddrdesc.paddress, processor_id(), size)",
+                                            "        try:\n            memaddrdesc = self.translate_address(va, privileged, True, size, was_aligned)\n        except DataAbortException:\n            d = AddressDescriptor()\n            d.paddress.physicaladdress = va\n            self.mem[d, size] = value\n            raise\n        if memaddrdesc.memattrs.shareable:\n            self.clear_exclusive_by_address(memaddrdesc.paddress, processor_id(), size)", ['C14']),
+    'background_region_for_user': (V, "                if not self.registers.sctlr.br or not ispriv:", "                if not self.registers.sctlr.br:", ['C14']),
+    'stm_wback_before_stores': (OPS + 'stmdb.py', "                address = sub(processor.registers.get(self.n), 4 * bit_count(self.registers, 1, 16), 32)\n                for i in range(15):",
+                                "                address = sub(processor.registers.get(self.n), 4 * bit_count(self.registers, 1, 16), 32)\n                if self.wback:\n                    processor.registers.set(self.n, address)\n                for i in range(15):", ['C14']),
     'keyerror_for_ap_100': (V, "        elif perms.ap == 0b100:\n            print('unpredictable')", "        elif perms.ap == 0b100:\n            abort = {}[perms.ap]", ['C18']),
     'stale_opcode_len_reuse': (V, "        elif self.registers.current_instr_set() == InstrSet.THUMB:\n            self.opcode_len = 2\n            self.opcode = self.mem_a_get(self.registers.pc_store_value(), self.opcode_len)",
                                "        elif self.registers.current_instr_set() == InstrSet.THUMB:\n            self.opcode_len = 2 if self.opcode_len != 1 else 4\n            self.opcode = self.mem_a_get(self.registers.pc_store_value(), 2)", []),
